@@ -344,9 +344,9 @@ Section TuckerInit.
     In m fixed -> m <> n - 1 -> nth m (facs s') [] = abs_mat fabs (nth m fs []).
   Proof.
     intros Hrun Hin Hne.
-    rewrite (run_fixed_user_hooks upd stop normf pre pre_on post ls_on ls_accept lsf lsw lsx NTDHals n fixed budget tol
+    rewrite (run_fixed_user upd stop normf pre pre_on post ls_on ls_accept lsf lsw lsx NTDHals n fixed budget tol
                (mkst w (map (abs_mat fabs) fs) x) s' [] m);
-      [| intros H; discriminate | intros H; discriminate | exact Hrun | exact Hin | intros _; exact Hne].
+      [| intros H; discriminate | exact Hrun | exact Hin | intros _; exact Hne].
     cbn [facs]. change (@nil (list F)) with (abs_mat fabs []) at 1. apply map_nth.
   Qed.
 End TuckerInit.
